@@ -199,7 +199,7 @@ func lineClasses(gap string, startsAtLineStart bool) []any {
 
 func parseCase(id int, text string) map[string]any {
 	cs := map[string]any{"id": id, "len": len(text), "ok": false, "panicked": false, "timedOut": false,
-		"nodes": []any{}, "dirs": []any{}, "gaps": []any{}, "file": map[string]any{"s": 0, "e": len(text)}, "err": map[string]any{"s": 0, "e": 0, "rendered": true}}
+		"nodes": []any{}, "dirs": []any{}, "gaps": []any{}, "file": map[string]any{"s": 0, "e": len(text)}, "err": map[string]any{"s": 0, "e": 0, "rendered": true, "foreign": false}}
 	type result struct {
 		f   directives.File
 		err error
@@ -233,7 +233,7 @@ func parseCase(id int, text string) map[string]any {
 		return cs
 	}
 	if res.err != nil {
-		e := map[string]any{"s": 0, "e": 0, "rendered": true}
+		e := map[string]any{"s": 0, "e": 0, "rendered": true, "foreign": false}
 		func() {
 			defer func() {
 				if rec := recover(); rec != nil {
@@ -253,6 +253,10 @@ func parseCase(id int, text string) map[string]any {
 				de = d
 				if d.Start < 0 || d.End > len(text) || d.Start > d.End {
 					break
+				}
+				if d.Text != text {
+					// a link whose range belongs to another text (e.g. a zero Error): its position says nothing about the input
+					e["foreign"] = true
 				}
 				if d.Wrapped == nil {
 					break
@@ -305,6 +309,12 @@ func noisyJournal(rng *rand.Rand) string {
 			d.Perf = [][]string{{}, {"CHF"}, {"USD", "CHF"}}[rng.Intn(3)]
 		}
 		t := j.RenderDir(d)
+		if d.K == "assert" && rng.Intn(3) == 0 {
+			// the multi-line form with a single balance line
+			if i := strings.Index(t, " balance "); i > 0 && !strings.Contains(t[i+9:], "\n") {
+				t = t[:i] + " balance\n" + t[i+9:]
+			}
+		}
 		if rng.Intn(5) == 0 {
 			t = strings.ReplaceAll(t, " ", "\t")
 		}
